@@ -168,7 +168,7 @@ def run(job, tier):
             out["L"] = res.Lambds
             if cfg["cov"]:
                 out.update(Fn_cov=res.Fn_poles_cov, Xi_cov=res.Xi_poles_cov, Phi_cov=res.Phi_poles_cov)
-        sound, complete, pattern = [], [], []
+        sound, complete, pattern, sound_r, complete_r = [], [], [], [], []
         for i in range(R):
             for j in range(C):
                 n0 = T["n0"][i, j]
@@ -188,6 +188,19 @@ def run(job, tier):
                     strong.append(T["Fn_cov"][i, j].z < hc["cov_max"].z)
                 nan_fn = lift(out["Fn"][i, j]).nan
                 sound.append(z3.And(z3.Not(nan_fn), z3.Not(z3.And(*weak))))
+                # model pickers with a relative margin of 1e-7 (the property does not judge within 1e-9 of a threshold)
+                mg = z3.Q(1, 10 ** 7)
+                weak_r = [z3.Not(n0), xi >= -mg, xi <= hc["xi_max"].z * (1 + mg), mpc >= hc["mpc_lim"].z * (1 - mg) - mg,
+                          mpd <= hc["mpd_lim"].z * (1 + mg) + mg]
+                strong_r = [z3.Not(n0), xi > mg, xi < hc["xi_max"].z * (1 - mg), mpc > hc["mpc_lim"].z * (1 + mg) + mg,
+                            mpd < hc["mpd_lim"].z * (1 - mg) - mg]
+                if cfg["conj"]:
+                    weak_r.append(conj_any)
+                    strong_r.append(conj_same)
+                if cfg["cov"] and is_ssi:
+                    weak_r.append(T["Fn_cov"][i, j].z <= hc["cov_max"].z * (1 + mg))
+                    strong_r.append(T["Fn_cov"][i, j].z < hc["cov_max"].z * (1 - mg))
+                sound_r.append(z3.And(z3.Not(nan_fn), z3.Not(z3.And(*weak_r))))
                 unchanged = [differs(out["Fn"][i, j], T["Fn"][i, j]), differs(out["Xi"][i, j], T["Xi"][i, j])]
                 unchanged += [differs(out["Phi"][i, j, c], T["Phi"][i, j, c]) for c in range(2)]
                 if "L" in out:
@@ -196,6 +209,7 @@ def run(job, tier):
                     unchanged += [differs(out["Fn_cov"][i, j], T["Fn_cov"][i, j]), differs(out["Xi_cov"][i, j], T["Xi_cov"][i, j])]
                     unchanged += [differs(out["Phi_cov"][i, j, c], T["Phi_cov"][i, j, c]) for c in range(2)]
                 complete.append(z3.And(z3.And(*strong), z3.Or(*unchanged)))
+                complete_r.append(z3.And(z3.And(*strong_r), z3.Or(*unchanged)))
                 flags = [lift(out["Xi"][i, j]).nan] + [lift(out["Phi"][i, j, c]).nan for c in range(2)]
                 if "L" in out:
                     flags.append(lift(out["L"][i, j]).nan)
@@ -203,8 +217,9 @@ def run(job, tier):
                     flags += [lift(out["Fn_cov"][i, j]).nan, lift(out["Xi_cov"][i, j]).nan]
                     flags += [lift(out["Phi_cov"][i, j, c]).nan for c in range(2)]
                 pattern.append(z3.Or(*[f != nan_fn for f in flags]))
-        tally.decide(e, z3.Or(*sound), assume, on_sat=lambda m: cex(cfg, st, m, "O1", None), label="O1 soundness")
-        tally.decide(e, z3.Or(*complete), assume, on_sat=lambda m: cex(cfg, st, m, "O2", None), label="O2 completeness")
+        tally.decide(e, z3.Or(*sound), assume, robust=z3.Or(*sound_r), on_sat=lambda m: cex(cfg, st, m, "O1", None), label="O1 soundness")
+        tally.decide(e, z3.Or(*complete), assume, robust=z3.Or(*complete_r), on_sat=lambda m: cex(cfg, st, m, "O2", None),
+                     label="O2 completeness")
         tally.decide(e, z3.Or(*pattern), assume, on_sat=lambda m: cex(cfg, st, m, "O3", None), label="O3 single NaN pattern")
     return tally.result(ex)
 
@@ -277,7 +292,7 @@ def replay_run(cfg, inputs, which=None):
         if cfg["cov"]:
             out.update(Fn_cov=res.Fn_poles_cov, Xi_cov=res.Xi_poles_cov, Phi_cov=res.Phi_poles_cov)
     n0 = np.isnan(T["Fn"])
-    eps = 1e-9
+    eps = 1e-8
     for i in range(R):
         for j in range(C):
             L = T["L"][i, j]
